@@ -174,6 +174,9 @@ func WorkerMain(engines map[string]func() Engine) {
 		}
 		run := *first + uint64(i)**stride
 		t := tape.NewGen(*seed, run)
+		if sr, ok := eng.(interface{ SetRun(seed, run uint64) }); ok {
+			sr.SetRun(*seed, run)
+		}
 		res := safeRun(eng, t, false)
 		wo.Runs++
 		wo.Steps += int64(res.Steps)
@@ -209,13 +212,22 @@ func WorkerMain(engines map[string]func() Engine) {
 		if violating > 12 {
 			break // the tree is clearly broken; enough witnesses
 		}
+		// a violation whose unminimised signature is already a listed known
+		// finding is not minimised again
+		if k := MatchKnown(kn, res.Violation.Signature); k != nil {
+			if !knownSeen[k.What] {
+				knownSeen[k.What] = true
+				wo.Known = append(wo.Known, k.What)
+			}
+			continue
+		}
 		// Shrink, keeping the violation class.
 		class := res.Violation.Class
 		rec := t.Record()
 		min, used := tape.Shrink(rec, func(c []uint32) bool {
 			r := safeRun(eng, tape.NewReplay(c), false)
 			return r.Violation != nil && r.Violation.Class == class
-		}, shrinkBudget(*tier), eng.Strides()...)
+		}, shrinkBudget(eng, *tier), eng.Strides()...)
 		wo.ShrinkExecs += used
 		fr := safeRun(eng, tape.NewReplay(min), true)
 		if fr.Violation == nil || fr.Violation.Class != class {
@@ -276,7 +288,10 @@ func WorkerMain(engines map[string]func() Engine) {
 	}
 }
 
-func shrinkBudget(tier string) int {
+func shrinkBudget(eng Engine, tier string) int {
+	if b, ok := eng.(interface{ ShrinkBudget() int }); ok {
+		return b.ShrinkBudget()
+	}
 	if tier == "thorough" {
 		return 6000
 	}
@@ -313,6 +328,9 @@ func doReplay(eng Engine, path string) int {
 	if err := json.Unmarshal(b, &rp); err != nil {
 		fmt.Fprintln(os.Stderr, "replay:", err)
 		return 2
+	}
+	if sr, ok := eng.(interface{ SetRun(seed, run uint64) }); ok {
+		sr.SetRun(rp.Seed, rp.Run)
 	}
 	res := safeRun(eng, tape.NewReplay(rp.Tape), true)
 	if res.Trouble != "" {
